@@ -29,7 +29,7 @@ def replay_file(path: str) -> int:
 
     data = json.loads(open(path).read())
     case = data["case"]
-    rep = cold_call("sim.c02", "replay_case", case)
+    rep = cold_call("sim.c02", "replay_case", case, hashseed=data.get("hashseed", 12345))
     if case["node"] in rep["violating"]:
         print(f"VIOLATION property={PROP} replay={path}")
         print("  " + jdump({"node": case["node"], "detail": rep["detail"].get(case["node"])})[:1500])
@@ -118,11 +118,11 @@ def run_check(tier: str, seed: int, runs: int | None = None, parallel: int | Non
                     known_lines.append(line)
                 continue
             case = _case_of(v)
-            confirms = [case["node"] in engine.cold("sim.c02", "replay_case", case)["violating"] for _ in range(3)]
+            confirms = [case["node"] in engine.cold("sim.c02", "replay_case", case, hashseed=engine.slots[i % len(engine.slots)].S.hashseed)["violating"] for _ in range(3)]
             if not all(confirms):
                 raise HarnessError(f"C02 violation of run {i} (node {case['node']}) does not replay in cold interpreters: {confirms}")
             tag = f"{i}-{len(viol_lines)}"
-            path = write_replay(PROP, seed, tag, {"case": case, "violation_key": key, "report": v.get("report"), "family": v.get("family"), "original_rows": v.get("original_rows"), "minimised_rows": [len(case["A"]["p_id"]), len(case["B"]["p_id"]) if case.get("B") else 0], "shrink_candidates": v.get("shrink_candidates"), "replay_cmd": f"./check replay replays/{PROP}-{seed}-{tag}.json"})
+            path = write_replay(PROP, seed, tag, {"hashseed": engine.slots[i % len(engine.slots)].S.hashseed, "case": case, "violation_key": key, "report": v.get("report"), "family": v.get("family"), "original_rows": v.get("original_rows"), "minimised_rows": [len(case["A"]["p_id"]), len(case["B"]["p_id"]) if case.get("B") else 0], "shrink_candidates": v.get("shrink_candidates"), "replay_cmd": f"./check replay replays/{PROP}-{seed}-{tag}.json"})
             viol_lines.append(f"VIOLATION property={PROP} replay={path}")
             log(f"  violation: node={case['node']} family={v.get('family')} A={len(case['A']['p_id'])} B={len(case['B']['p_id']) if case.get('B') else 0} detail={jdump((v.get('report') or {}).get('detail', {}).get(case['node']))[:400]}")
             exit_code = EXIT_VIOLATION
